@@ -800,10 +800,13 @@ class ClientGenerator:
         variable_names = {}
         argument_names = set(arg.arg for arg in arguments.args)
 
+        used_names = set(argument_names)
         for variable in mapped_variable_names:
-            variable_names[variable] = (
-                f"_{variable}" if variable in argument_names else variable
-            )
+            name = variable
+            while name in used_names:
+                name = f"_{name}"
+            used_names.add(name)
+            variable_names[variable] = name
 
         return variable_names
 
